@@ -15,11 +15,13 @@ na_file = V / "tools" / "not_applicable.json"
 if na_file.exists():
     NA = json.loads(na_file.read_text())
 
+APPROVED = set((V / "tools" / "approved.txt").read_text().split())  # checks reviewed by the maintainer of /verif
+
 checks, na = [], []
 for p in props:
     pid = p["id"]
     f = V / "tools" / "manifest.d" / f"{pid}.json"
-    if not f.exists() or pid in NA:
+    if not f.exists() or pid in NA or pid not in APPROVED:
         na.append({"property_id": pid, "reason": NA.get(pid, NOT_YET)})
         continue
     c = json.loads(f.read_text())
@@ -63,7 +65,7 @@ manifest = {
 
 findings = []
 for f in sorted((V / "tools" / "findings.d").glob("*.json")):
-    findings += json.loads(f.read_text())
+    findings += json.loads(f.read_text())  # findings of checks still under review are listed too (they suppress nothing else)
 kf = {"_comment": "Genuine defects of the pinned tree that are recorded rather than repaired. status=known: the check prints KNOWN-FINDING and exits 0 "
                   "when it re-observes exactly this case; status=fixed ('fixed: property=<id> <commit> <what failed>'): repaired by the named fix: commit, "
                   "suppresses nothing. Keys are matched exactly, or as a prefix when they end with '*'. Generated from tools/findings.d by tools/gen_manifest.py "
